@@ -186,6 +186,19 @@ OPERATORS = [
      "index the state items by 2*i instead of a running counter"),
     ("eq-c-state-pack", "equiv", ["C06"], B, r'Py_BuildValue\("\(O\)", items\)', "PyTuple_Pack(1, items)",
      "build the 1-tuple with PyTuple_Pack"),
+    ("check-sorted-keys", "break", ["C18"], CHK, r"        for x in keys:\n", "        for x in sorted(keys):\n",
+     "check_sorted looks at a sorted copy of the keys"),
+    ("check-dedup-leaf", "break", ["C18"], CHK, r"        return data, \[\]\n", "        return sorted(set(data)), []\n",
+     "crack_bucket hands on the de-duplicated, sorted keys of a set leaf"),
+    ("check-range-last", "break", ["C18"], CHK, r"                        if i < n - 1:\n", "                        if i < n:\n",
+     "the last child of a node gets an upper bound from beyond the separators"),
+    ("py-check-successor", "break", ["C18"], PY, r"data\[i\]\.child\._check\(data\[i \+ 1\]\.child\._firstbucket\)",
+     "data[i].child._check(data[i].child._firstbucket)", "the recursion is told the wrong successor leaf"),
+    ("eq-check-n-name", "equiv", ["C18"], CHK, r"\bn = len\(kids\)\n(\s+for i in range\(len\(kids\) - 1, -1, -1\):\n\s+newlo, newhi = lo, hi\n\s+if i < )n - 1:",
+     r"count = len(kids)\n\1count - 1:", "the number of children under another name"),
+    ("eq-check-worklist", "equiv", ["C18"], CHK, r"            obj, path, parent, lo, hi = stack\.pop\(\)\n",
+     "            stack.reverse()\n            stack.reverse()\n            obj, path, parent, lo, hi = stack.pop()\n",
+     "the work list of nodes is re-ordered (twice): no key sequence is"),
     # ---- equivalence operators (must NOT alarm) ------------------------------------------
     ("eq-shift-lines", "equiv", ["C05", "C04", "C16", "C17", "C14"], B, r"\A", "/* moved */\n\n\n", "shift every line of the file"),
     ("eq-shift-lines-t", "equiv", ["C05", "C04", "C08", "C03", "C01", "C18"], T, r"\A", "/* moved */\n\n\n", "shift every line of the file"),
